@@ -187,9 +187,12 @@ class ServiceHandle:
 
 
 class CloudWorld(World):
-    def __init__(self, I, ctx, page_size=100):
+    def __init__(self, I, ctx, page_size=100, concrete_ids=False, concrete_now=None):
         super().__init__(I, ctx)
         self.page_size = page_size
+        self.concrete_ids = concrete_ids
+        self.concrete_now = concrete_now
+        self.nids = 0
         self.store = Store()
         self.uuids = []
         self.now_term = None
@@ -199,6 +202,12 @@ class CloudWorld(World):
         self.servers = {}
 
     def new_uuid(self, I=None):
+        if self.concrete_ids:
+            # distinct, deliberately non-monotonic concrete ids (their order is not the subject of that check)
+            self.nids += 1
+            t = 1000 + (self.nids * 7919) % 997
+            self.uuids.append(t)
+            return t
         t = self.ctx.fresh_int('vid', 1, UUID_MAX)
         for u in self.uuids:
             self.ctx.assume(t != u)
@@ -209,6 +218,8 @@ class CloudWorld(World):
         self.uuids.append(u)
 
     def system_now(self, I=None):
+        if self.concrete_now is not None:
+            return self.concrete_now
         if self.now_term is None:
             self.now_term = self.ctx.fresh_int('now', 0, 4_000_000_000)
         return self.now_term
